@@ -225,7 +225,7 @@ def read_programs(ctx):
 
 
 def run(ctx):
-    framework.check_facts(ctx, ctx.facts, ["map_ranges", "writer_calls", "replay_cases"])
+    framework.check_facts(ctx, ctx.facts, ["map_ranges", "writer_calls", "replay_cases", "truncate_sites"])
     storage_tie(ctx, ctx.seed + 1200, 600 if ctx.quick else 8000)
     res = fndiff.run_stream(ctx.ev, ["fn-replay", str(ctx.seed + 1201), "1500" if ctx.quick else "20000"])
     ctx.tie("T2-fn replay (total on every event list)", cases=res["cases"], classes=res["classes"], disagreements=len(res["diffs"]))
